@@ -29,6 +29,8 @@ type caseSpec struct {
 	UseChain    bool       `json:"use_chain"`
 	Callbacks   bool       `json:"callbacks"` // a callback handler is installed (graph option / InitCallbacks): tool output streams get copied
 	BadArgs     bool       `json:"bad_args"`
+	// empty-output sub-workload (empty_output_test.go): unknown names are answered with "" by the handler
+	QuietUnknown bool `json:"quiet_unknown,omitempty"`
 }
 
 func (c *caseSpec) digest() string {
@@ -59,7 +61,11 @@ func genN(r *mon.Rand) int {
 	}
 }
 
-func genCase(r *mon.Rand) *caseSpec {
+func genCase(r *mon.Rand) *caseSpec { return genCaseQ(r, nil) }
+
+// genCaseQ: q != nil turns some (or all) of the tools into tools whose total
+// output is empty (empty_output_test.go); the draws from r are the same either way.
+func genCaseQ(r *mon.Rand, q *quietGen) *caseSpec {
 	c := &caseSpec{}
 	nt := r.Range(1, 5)
 	for i := 0; i < nt; i++ {
@@ -76,7 +82,15 @@ func genCase(r *mon.Rand) *caseSpec {
 			sp.Chunks = r.Range(1, 4)
 			sp.Cap = r.Range(-1, 3)
 		}
+		if q != nil {
+			q.tool(&sp)
+		}
 		c.Tools = append(c.Tools, sp)
+	}
+	ghost := "ghost_"
+	if q != nil && q.quietUnknown() {
+		c.QuietUnknown = true
+		ghost = quietGhost
 	}
 	n := genN(r)
 	c.HasUnknown = r.Prob(0.3)
@@ -94,7 +108,7 @@ func genCase(r *mon.Rand) *caseSpec {
 		if c.HasUnknown && (r.Prob(0.3) || (i == n-1 && !unknownPlaced)) {
 			unknownPlaced = true
 			cs.Tool = -1
-			cs.Name = "ghost_" + r.Str(1, 3)
+			cs.Name = ghost + r.Str(1, 3)
 			cs.Args = genHandArgs(r, i)
 			cs.Key = rawKey(cs.Name, cs.Args)
 		} else {
@@ -187,6 +201,10 @@ func reference(c *caseSpec) []want {
 
 func refContent(sp *toolSpec, cs *callSpec, tag string) string {
 	var sb strings.Builder
+	if sp.quietFor(cs.Key) != "" {
+		// the tool's output for this call is empty: an output like any other
+		return ""
+	}
 	if !sp.typed() {
 		for _, o := range sp.outputs(cs.Key, tag, len(cs.Key)) {
 			sb.WriteString(handRender(o))
@@ -239,6 +257,9 @@ func allPerms(n int) [][]int {
 func schedule(c *caseSpec, perm []int, streamMode, serial bool, r *mon.Rand) []event {
 	chunks := func(s int) int {
 		if t := c.Calls[s].Tool; t >= 0 {
+			if c.Tools[t].quietFor(c.Calls[s].Key) == "nochunk" {
+				return 0
+			}
 			return c.Tools[t].Chunks
 		}
 		return 0
